@@ -89,6 +89,8 @@ def run(tier, seed, replay=None):
     cases = load_replay_case(replay) if replay else make_cases(tier, rng)
     res = correspond(rep, "C19", cases, "C19_once_at_most_once / C19_never_before_delay / C19_repeat_ticks / C19_quiet_after_cancel_or_closed")
     xcheck.cross_check(rep, "C19", cases, res, 40 if tier == "quick" else 400)
+    if not replay:
+        real_timer_cases(rep, "C19_never_before_delay (the model's assumption about new_timer)")
     c = rep.coverage
     hist = {}
     for _, _, t in cases:
@@ -105,5 +107,6 @@ def run(tier, seed, replay=None):
                  "nothing is delivered afterwards, neither by the task nor by the subscription it produced" % (6 if tier == "quick" else 8))
     rep.assumptions = ["the executor is represented by explicit poll labels on the hook scheduler (any task may be polled at any time); "
                        "the real LocalPool / ThreadPool only choose among these polls",
-                       "virtual timer installed through NEW_TIMER_FN (the crate is built without the `timer` feature)"]
+                       "virtual timer installed through NEW_TIMER_FN (the crate is built without the `timer` feature); the real timer is run "
+                       "separately (harness_rt, feature on) on 18 delays from 0 to beyond 2^64 microseconds: never ready early"]
     return rep.finish()
